@@ -205,41 +205,52 @@ void harness (void)
         VH_CHECK ("lemma.count_is_additive", SF_COUNT (N, px, in_lx, in_mx) + SF_COUNT (N, px, in_mx, in_rx) == SF_COUNT (N, px, in_lx, in_rx));
     }
 #elif VC_CASE == 3
-    /* VC_K consecutive sample rows inside ONE pixel row, the two edges moving by a constant per sample row (stepx_small,
-     * error terms zero): exercises the deferred long-span fill of rasterize_edges_8 across sample rows (fill_start /
-     * fill_end / fill_size), whose spans may overlap, nest or be disjoint.  Coverage is additive over sample rows
-     * (property: "the number of points of the sample grid that lie inside"), saturating. */
+    /* VC_K consecutive sample rows, the two edges moving by a constant per sample row (stepx_small == stepx_big, error
+     * terms zero): exercises the deferred long-span fill of rasterize_edges_8 across sample rows (fill_start / fill_end /
+     * fill_size: restart when the new span is beyond the saved one, trimming / extending on either side, the flush at the
+     * end and at a pixel-row boundary, the memset shortcut for a fully covered pixel row).  Coverage is additive over
+     * sample rows (property: "the number of points of the sample grid that lie inside"), saturating.
+     * One scenario per job: the PIXEL indices of the span ends are fixed (-DVC_L0 -DVC_R0 at the first sample row, moving by
+     * -DVC_DL -DVC_DR pixels per sample row), their sub-pixel parts and the sub-pixel parts of the steps are symbolic.
+     * -DVC_Y0K=<k>: the first sample row is grid row k of image row 0 (rows then run on, into image row 1 if need be). */
     {
-        VH_IN (vh_i32, in_lstep);
-        VH_IN (vh_i32, in_rstep);
+        VH_IN (vh_u16, in_lfrac); VH_IN (vh_u16, in_rfrac); VH_IN (vh_u16, in_lsfrac); VH_IN (vh_u16, in_rsfrac);
         pixman_edge_t l, r;
         int k;
-        sf_i64 total = 0;
-        /* the fill logic depends on the pixel indices of the span ends only: edges start within 2 pixels of the image,
-         * steps of at most the image width per sample row (bounded job) */
-        VH_ASSUME (in_lx > -(2 << 16) && in_lx < ((VC_WMAX + 2) << 16) && in_rx > -(2 << 16) && in_rx < ((VC_WMAX + 2) << 16));
-        VH_ASSUME (in_lstep > -(VC_WMAX << 16) && in_lstep < (VC_WMAX << 16) && in_rstep > -(VC_WMAX << 16) && in_rstep < (VC_WMAX << 16));
+        sf_i64 total = 0, yk, lxk, rxk;
+        int lx0 = VC_L0 * 65536 + in_lfrac, rx0 = VC_R0 * 65536 + in_rfrac;
+        int lst = VC_DL * 65536 + in_lsfrac, rst = VC_DR * 65536 + in_rsfrac;
+        int y0 = (int) SF_ROW (N, VC_Y0K);
+        sf_i64 ylast = y0;
         VH_ASSUME (in_width == VC_WMAX);
-#ifdef VC_INTPOS
-        /* whole-pixel edge positions and steps: the sub-pixel part is the single-sample-row jobs' subject */
-        VH_ASSUME ((in_lx & 0xffff) == 0 && (in_rx & 0xffff) == 0 && (in_lstep & 0xffff) == 0 && (in_rstep & 0xffff) == 0);
-        VH_ASSUME (SF_FRAC (in_y) == SF_Y_FIRST (N));
+#ifdef VC_NOFRAC    /* long runs (a whole pixel row of sample rows): whole-pixel edges, only the image content is symbolic */
+        VH_ASSUME (in_lfrac == 0 && in_rfrac == 0 && in_lsfrac == 0 && in_rsfrac == 0);
 #endif
-        VH_ASSUME (SF_FRAC (in_y) + (VC_K - 1) * SF_STEP_Y (N) <= SF_Y_LAST (N));
+        for (k = 1; k < VC_K; k++)
+            ylast = SF_NEXT_ROW (N, ylast);
         memset (&l, 0, sizeof l);
         memset (&r, 0, sizeof r);
-        l.x = in_lx; l.stepx_small = in_lstep;
-        r.x = in_rx; r.stepx_small = in_rstep;
-        RAST (&im, &l, &r, in_y, in_y + (VC_K - 1) * (pixman_fixed_t) SF_STEP_Y (N));
+        l.x = lx0; l.stepx_small = lst; l.stepx_big = lst;
+        r.x = rx0; r.stepx_small = rst; r.stepx_big = rst;
+        RAST (&im, &l, &r, y0, (pixman_fixed_t) ylast);
         new_ = GET (buf + gw * CPW, gs);
-        if (is_row)
+        /* which image row / pixel is the ghost slot? */
         {
-            for (k = 0; k < VC_K; k++)
-                total += SF_COUNT (N, px, (sf_i64) in_lx + (sf_i64) k * in_lstep, (sf_i64) in_rx + (sf_i64) k * in_rstep);
-            VH_CHECK ("post.pixel_is_saturated_sample_count_over_sample_rows", (sf_i64) new_ == SF_SAT (N, (sf_i64) old + total));
+            int grow = (gw - 1) / STRIDE, gcol = (gw - 1) % STRIDE, gpx = gcol * PPW + gs;
+            if (gw >= 1 && gw < 1 + H * STRIDE && gcol < ROWW && gpx < in_width)
+            {
+                yk = y0; lxk = lx0; rxk = rx0;
+                for (k = 0; k < VC_K; k++)
+                {
+                    if (SF_INT (yk) == grow)
+                        total += SF_COUNT (N, gpx, lxk, rxk);
+                    yk = SF_NEXT_ROW (N, yk); lxk += lst; rxk += rst;
+                }
+                VH_CHECK ("post.pixel_is_saturated_sample_count_over_sample_rows", (sf_i64) new_ == SF_SAT (N, (sf_i64) old + total));
+            }
+            else
+                VH_CHECK ("frame.slot_outside_rows_unchanged", new_ == old);
         }
-        else
-            VH_CHECK ("frame.slot_outside_row_unchanged", new_ == old);
     }
 #endif
     VH_END ();
